@@ -128,6 +128,7 @@ class Prover:
         self.tables = tables or {}
         self.results = []  # dicts: fn, key, kind, status ('proved'|'justified'|'violation'), what, where
         self._self_consts = {}
+        self.inferred = {}  # private contract-less fn path -> [goal over parameter atoms] (inferred preconditions)
 
     # ------------------------------------------------------------------ analysis per function
     def analysis(self, fn, assumed=None):
@@ -400,6 +401,53 @@ class Prover:
         cons = self.state_cons(A, st, [])
         return LN.infeasible(cons)
 
+    def check_all(self, fns):
+        fns = list(fns)
+        for fn in fns:
+            self.check_fn(fn)
+        # inferred preconditions of private helpers are checked at their call sites (two rounds for nested helpers)
+        done = set()
+        for rnd in range(2):
+            todo = {p: gs for p, gs in self.inferred.items() if (p, len(gs)) not in done}
+            if not todo:
+                break
+            for p, gs in todo.items():
+                done.add((p, len(gs)))
+            for fn in fns:
+                self._check_inferred_calls(fn, todo)
+
+    def _check_inferred_calls(self, fn, todo):
+        A = self.analyses.get(fn.path) or self.analysis(fn)
+        n = 0
+        for bi, t in fn.calls():
+            r = t["callee"].get("resolved") or t["callee"].get("def")
+            if r not in todo:
+                continue
+            st = A.state_before_term(bi)
+            if st is None:
+                continue
+            X = CallCtx(self, A, t)
+            self._cur_block = bi
+            for g in todo[r]:
+                n += 1
+                kind, l = g
+                inst = Lin.const(l.k)
+                ok_inst = True
+                for a, v in l.c.items():
+                    if a[0] == "arg":
+                        term = X.num(a[1] - 1)
+                    elif a[0] == "len":
+                        term = X.len(a[1][1] - 1)
+                    else:
+                        ok_inst = False
+                        break
+                    inst = inst + term.scale(v)
+                key = "pre-inferred:%s#%d" % (r.split("::")[-1], n)
+                if not ok_inst or X.failed:
+                    self.record(fn, key, "precondition", "violation", "inferred precondition of %s not expressible at this call" % r.split("::")[-1], t)
+                    continue
+                self._oblige(A, fn, t, st, [(kind, inst)], key, "precondition-inferred", "requirement of helper %s" % r.split("::")[-1], bi)
+
     # ------------------------------------------------------------------ obligations
     def record(self, fn, key, kind, status, what, t=None, detail=None):
         self.results.append({"fn": fn.path, "key": key, "kind": kind, "status": status, "what": what,
@@ -477,8 +525,40 @@ class Prover:
                 out.append(self._fmt_goal(A, (k, l)))
         return sorted(out, key=len)[:limit]
 
+    def _param_only(self, fn, goal):
+        for a in goal[1].atoms():
+            if a[0] == "arg" and 1 <= a[1] <= fn.argc:
+                continue
+            if a[0] == "len" and a[1][0] == "arg":
+                continue
+            return False
+        return True
+
+    def _is_private_helper(self, fn):
+        b = fn.body
+        if b.get("kind") != "Fn" and b.get("kind") != "AssocFn":
+            return False
+        if b.get("trait_item") or b.get("in_trait"):
+            return False
+        if b.get("pub") and b.get("reachable"):
+            return False
+        return self.C.contract_for(fn.path) is None
+
     def _oblige(self, A, fn, t, st, goals, key, kind, desc, bi=None):
         ok, bad = self.prove(A, st, goals)
+        if not ok and self._is_private_helper(fn) and all(self._param_only(fn, g) for g in goals) and kind != "precondition-inferred":
+            # a private helper without a contract: the obligation becomes an inferred precondition checked at every call site
+            self.inferred.setdefault(fn.path, [])
+            for g in goals:
+                if LN.ccanon(g) not in [LN.ccanon(x) for x in self.inferred[fn.path]]:
+                    self.inferred[fn.path].append(g)
+            self.record(fn, key, kind, "proved", desc + " (required of every caller: inferred precondition)", t)
+            if bi is None:
+                bi = self._cur_block
+            if bi is not None and hasattr(self, "_failed_goals"):
+                for g in goals:
+                    self._failed_goals.append((bi, g))
+            return
         if ok:
             self.record(fn, key, kind, "proved", desc, t)
         else:
